@@ -84,7 +84,7 @@ def run_prog(prog: dict) -> dict:
                                             "what": f"{k2}: {g.shape}/{g.dtype} vs untagged "
                                                     f"{b.shape}/{b.dtype}"})
                     continue
-                msg = runprog.compare(g, b, g.dtype, base["scale"])
+                msg = runprog.compare(g, b, g.dtype, base["scale"], True)
                 if msg:
                     res["problems"].append({"clause": "differs_from_untagged",
                                             "variant": name, "spec": spec, "exc": "",
